@@ -19,4 +19,139 @@ PROPS = {
         assumptions=["reference model harness/oracle/spec.hpp transcribes the documented matrix forms correctly",
                      "long double (x87 80-bit) arithmetic of the reference is accurate to ~1e-18"],
     ),
+    "C02": dict(
+        src=[("props/c02.cpp", 6)],
+        quick_cases=500, thorough_cases=8000, procs=16,
+        rule="cases are (type, tangent a) resp. (type, element g) decoded from a tape; rotation magnitude stratified "
+             "(zero, 1e-12..1e-7, below/at/just-above the 1e-4 switch incl. +-8 ulp, generic, near pi, at pi, up to 50), "
+             "translations 0 / <=1 / <=1e3; elements from coefficients (identity..half-turn) or from the library's exp; "
+             "non-trivial = non-zero rotation part / rotation angle; distinct = hash of decoded values",
+        technique="property-based testing (rapidcheck tapes, magnitude-stratified decoders) against expm(hat a) by scaling-and-squaring in long double and principal-log predicates",
+        level_text="Generated-input search over every group, float/double and 14 Bundles; exp compared with an independent "
+                   "long-double matrix exponential of the documented algebra matrix; log checked by |rot|<=pi and by "
+                   "re-exponentiating with the oracle (so a wrong exp cannot hide a wrong log).",
+        level_note="trusts the reference expm (degree-30 Taylor + squaring, long double) and the spec transcription; tolerances as stated (1e-9/1e-3, 1e-7/1e-2 in the band next to pi)",
+        assumptions=["reference expm accurate to ~1e-17 relative for |a| <= 1e3", "spec.hpp hat/matrix transcribe the documented forms"],
+    ),
+    "C03": dict(
+        src=[("props/c03.cpp", 6)],
+        quick_cases=300, thorough_cases=5000, procs=16,
+        rule="cases are (type, elements, tangents, scalars) from a tape (same strata as C01/C02); non-trivial = "
+             "non-commutative type with non-identity g / non-parallel a,b / non-zero rotation; distinct = hash of decoded values",
+        technique="property-based testing against the matrix definitions vee(M hat(a) M^-1), vee([hat a, hat b]) and expm(ad a) built from the spec's own matrix/hat/vee in long double",
+        level_text="Generated-input search; Ad, ad, bracket, hat, vee compared with their matrix definitions evaluated on an "
+                   "independent transcription of the documented matrices; homomorphism, antisymmetry and Jacobi checked on the library results.",
+        level_note="tolerance 1e-12/1e-5 relative to the largest entry for algebraic identities (the statement gives none; same constant as C01), 1e-9/1e-3 for the clause involving exp",
+        assumptions=["spec.hpp hat/vee/matrix transcribe the documented forms"],
+    ),
+    "C04": dict(
+        src=[("props/c04.cpp", 6)],
+        quick_cases=150, thorough_cases=5000, procs=16,
+        rule="cases are (type, tangent a[, point v]) from a tape with rotation magnitudes stratified around the small-angle "
+             "switch (1e-12..pi, up to 50 for dr_exp) and translations up to 1e3; non-trivial = non-commutative type with "
+             "non-zero rotation part; distinct = hash of decoded values",
+        technique="property-based testing against phi1(-ad a) from an augmented-matrix exponential in long double, LU inverses, M hat(e_k) v, and central differences of a Newton-refined reference log",
+        level_text="Generated-input search; every first-order formula compared with a reference that shares no code with the "
+                   "library (series sum via expm of an augmented matrix); the reference itself is cross-checked against the defining secant relation.",
+        level_note="tolerance 1e-7 (1e-2 float) relative to the largest entry, as stated; inverses only for rotation <= pi-1e-3",
+        assumptions=["reference phi1/expm accurate to ~1e-16", "spec.hpp transcribes the documented forms"],
+    ),
+    "C05": dict(
+        src=[("props/c05.cpp", 4)],
+        quick_cases=300, thorough_cases=5000, procs=16,
+        rule="cases are (type, tangent a) from a tape (rotation magnitude stratified around the small-angle switch, capped at "
+             "pi-1e-3; translations up to 1e3), generated polynomial matrix factors (size 1..6, 1..6 variables) and generated "
+             "cubic polynomial maps f, g of static and dynamic sizes with dense/sparse outer Jacobian; non-trivial = "
+             "non-commutative type with non-zero rotation part, factor size >= 2, inner dimensions >= 2; distinct = hash of decoded values",
+        technique="property-based testing against complex-step derivatives (h=1e-40) of the reference Jacobians, second differences of a reference log, and exact/finite-difference derivatives of generated polynomial maps",
+        level_text="Generated-input search; Hessians compared in the documented stacked layout with complex-step derivatives of an "
+                   "independent long-double reference; helper routines compared with derivatives of explicit generated polynomials.",
+        level_note="tolerance 1e-5 relative to the largest entry (double only, as stated), rotation <= pi-1e-3; finite-difference references add 1e-6",
+        assumptions=["complex-step derivative of the polynomial reference is exact to rounding", "spec.hpp transcribes the documented forms"],
+    ),
+    "C06": dict(
+        src=[("props/c06.cpp", 5)],
+        quick_cases=1500, thorough_cases=20000, procs=16,
+        rule="cases are (Bundle type, b1, b2, a, c) from a tape over 14 fixed Bundle compositions (order, repetition, nesting depth 2-3, "
+             "vector-first, commutative-only, float, single member, Galilei/SE_K_3 members) plus, in the thorough tier, 32 generated "
+             "Bundle type expressions; and (vector type/size, g1, g2, a) for static sizes 1..10, dynamic sizes 0..12, double and float scalars; "
+             "non-trivial = >= 2 parts with a non-commutative one and a non-zero tangent (vectors: non-zero elements); distinct = hash of decoded values",
+        technique="property-based testing with a part-wise differential oracle (same operation on part<i>()), exact-zero block structure, and exact additive-group identities for vectors/scalars; generated Bundle programs in the thorough tier",
+        level_text="Generated-input search over Bundle compositions (each a different template instantiation) and vector sizes; every Bundle "
+                   "operation, Jacobian and Hessian is compared block by block with the same operation on the parts; zeros must be exact.",
+        level_note="8 ulp of the largest coefficient allowed between a part computed inside the Bundle and stand-alone (different SIMD paths); vector/scalar identities exact",
+        assumptions=["the operations on the individual parts are verified by C01-C05"],
+    ),
+    "C17": dict(
+        src=[("props/c17.cpp", 2)],
+        quick_cases=12000, thorough_cases=200000, procs=16,
+        rule="cases are elements/tangents of the related groups from a tape (angles over the full circle incl. 0, +-pi/2, +-pi with both "
+             "signed zeros, pi-1e-17..1e-3, generic, tiny; unnormalised (1e-3..1e3) and negative-w quaternions; translations up to 1e3); "
+             "non-trivial = rotation angle > 1e-3 with non-zero translation/tangent, unnormalised or negative-w input, non-identity SO2 element; "
+             "distinct = hash of decoded values",
+        technique="property-based testing with differential oracles between related groups on identical coefficients, round trips compared as matrices of the reference model, and range/congruence predicates on branch-cut strata",
+        level_text="Generated-input search on the branch cuts and degenerate inputs the suite never samples (exact half turns with either signed zero, negative-w and "
+                   "unnormalised quaternions, gimbal-lock neighbourhood excluded at 1e-6).",
+        level_note="tolerances 1e-12 (1e-5 float) for algebraic relations, the C02 tolerances for relations through exp/log; angle ranges checked with 4 ulp slack for float pi",
+        assumptions=["reference model spec.hpp", "Eigen's eulerAngles convention R = Rz(a0) Ry(a1) Rx(a2) for indices (2,1,0)"],
+    ),
+    "C19": dict(
+        src=[("props/c19.cpp", 5)],
+        quick_cases=400, thorough_cases=6000, procs=16,
+        rule="cases are (group, tangent, block offset i0 in 0..12, host size, extra stored entries, garbage pre-fill incl. NaN) from a tape; tangents "
+             "from {zero, single-axis (each entry individually non-zero), stratified incl. small-angle branch, generic with all coordinates non-zero}; "
+             "non-trivial = i0 > 0 and non-commutative group; distinct = hash of decoded values",
+        technique="property-based testing with the dense routines as reference and a bitwise structure/guard comparison of the host sparse matrix before and after each call",
+        level_text="Generated-input search over groups (SO2, SO3, SE2, SE3, C1, float variants, 11 Bundles incl. nested), offsets and host patterns; after every call the "
+                   "host's index arrays must be bitwise unchanged, entries outside the block bitwise unchanged, the block equal to the dense routine, and every dense non-zero inside the published pattern.",
+        level_note="block values may differ from the dense routine by 4 ulp of the largest entry; the dense routines themselves are verified by C04/C05",
+        assumptions=["dense dr_exp/dr_expinv/d2r_exp/d2r_expinv/ad are correct (C03-C05)"],
+    ),
+    "C20": dict(
+        src=[("props/c20.cpp", 4)],
+        quick_cases=3000, thorough_cases=60000, procs=16,
+        rule="exhaustive: every basis x degree 0..10 on a 257-point grid, every monomial_integral / lgr_nodes table, every sorted range of length 0..8 over {0..4} "
+             "with all 13 queries; generated: evaluation points, derivative orders, Lagrange nodes (perturbed equispaced), quadratic coefficients (0 or 1e-4..1e3, plus a tiny class) "
+             "and intervals in [-5,5], ranges up to 2000 doubles with clustered / ulp-spaced values; non-trivial = degree >= 2, two roots inside the interval, ranges with repeats",
+        technique="exhaustive enumeration of the finite sub-spaces plus property-based testing against three-term recurrences, de Casteljau / Cox-de Boor, exact rationals, a stable piecewise antiderivative, and a linear-scan search",
+        level_text="The constant tables and the small search space are enumerated completely (exhaustive sub-checks are listed in the evidence); continuous parameters are explored by generated inputs.",
+        level_note="tolerance 1e-9 relative to max(1, sum of |term| magnitudes) of the evaluated polynomial; search results must be identical to the linear scan",
+        assumptions=["B-spline segment basis column i is the cardinal B-spline N_K(u + K - i)"],
+    ),
+    "C07": dict(
+        src=[("props/c07.cpp", 6)],
+        quick_cases=1500, thorough_cases=25000, procs=16,
+        rule="cases are (model, value m, tangents a, b) from a tape for every Manifold model: 9 groups (double) + float variants + 4 Bundles, fixed/dynamic vectors "
+             "(sizes 0..6), double/float, std::vector<M> of 0..6 static and dynamic elements, std::variant with every alternative, SubManifold over 5 base "
+             "manifolds with a bit-mask over fixed dimensions (every subset reachable; value moved off the origin half of the time), AnyManifold wrapping 5 models; "
+             "non-trivial = dof >= 1 and non-zero tangent (containers: size >= 2; SubManifold: >= 1 fixed and >= 1 free dimension); distinct = hash of decoded values",
+        technique="property-based testing of the manifold laws (round trips, exact zero, copy/cast independence via bitwise fingerprints) with element-wise differential oracles for containers, variants and SubManifold",
+        level_text="Generated-input search over all Manifold models the library ships; laws are checked on the public free-function interface and containers are compared element by element with the same operation on their members.",
+        level_note="round-trip tolerance 1e-9 (1e-3 float) times max(1,|a|); exact equality where the statement says identical / zero; rotation parts of tangents below pi-1e-3",
+        assumptions=["group-level rplus/rminus accuracy is covered by C02", "Default<SubManifold> is not instantiable on this tree and is not part of the stated axioms"],
+    ),
+    "C10": dict(
+        src=[("props/c10.cpp", 1)],
+        quick_cases=4000, thorough_cases=60000, procs=16,
+        rule="cases are (J, d, r, lambda) from a tape: J 1..40 x 1..40 (and static 1x1, 3x2, 6x6, 4x7), dense and the same matrix as SparseMatrix, density 0.1..1, "
+             "full rank / zero or duplicated column / rank-k product, tall and wide; d in 1e-3..1e3; r generic / zero / orthogonal to range(J); lambda = 1/Delta in 1e-6..1e6; "
+             "non-trivial = J'r != 0; distinct = hash of decoded values",
+        technique="property-based testing against long-double normal equations (backward error), a long-double closed form and central difference of phi(lambda), and a dense-vs-sparse differential",
+        level_text="Generated-input search including exactly rank-deficient and wide Jacobians and twelve decades of regularisation; the returned step is checked against the normal equations evaluated in extended precision.",
+        level_note="backward error 1e-8 as stated; dense/sparse 1e-6 when cond <= 1e8 (long-double eigenvalues); descent clause allows the rounding of a backward-stable solve (64 eps^2 cond |H| |dx|^2) and is skipped (counted) when that exceeds 1e-6 |r|^2",
+        assumptions=["long-double LDLT with one refinement step is exact to ~1e-18 relative for cond <= 1e16"],
+    ),
+    "C08": dict(
+        src=[("props/c08.cpp", 4)],
+        quick_cases=600, thorough_cases=10000, procs=16,
+        rule="cases are (function from a family of 10, evaluation point, const/non-const argument passing) from a tape: group action, log of a product, a group-valued map, "
+             "a 3-argument map mixing SE2 / dynamic vector / scalar, generated polynomial maps with exact derivatives, a map of (Bundle, std::vector<SO3>), three scalar functions "
+             "for K=2, and marker callables for Analytic/Default; vector coordinates are 0 or of magnitude 0.1..10; every index subset of 2- and 3-argument functions is "
+             "instantiated; non-trivial as stated per check (non-zero points, >= 2 arguments of different kinds); distinct = hash of decoded values",
+        technique="property-based testing against exact derivatives (polynomial maps) and Richardson-extrapolated central differences of the same callable instantiated with long double; bitwise pass-through and restore-bound checks",
+        level_text="Generated-input search over functions, points and argument-type mixes; numerical derivatives are compared with a slower, higher-order differentiator in extended precision "
+                   "(itself cross-checked on polynomials with exact derivatives).",
+        level_note="tolerances as stated: 1e-4 first / 5e-2 second derivative relative to the largest entry, restore bound 1e-15 of the largest coefficient, verbatim = bitwise; Autodiff and Ceres modes are not installed and cannot be exercised",
+        assumptions=["smooth instantiates with Scalar = long double (used only by the reference differentiator)"],
+    ),
 }
